@@ -81,7 +81,16 @@ def schema_xsd(s) -> str:
         root = f'<xs:complexType name="RootType">{body}</xs:complexType><xs:element name="root" type="{_t("RootType", tns)}"/>'
     else:
         root = f'<xs:element name="root"><xs:complexType>{body}</xs:complexType></xs:element>'
-    return head + types + root + "</xs:schema>"
+    text = head + types + root + "</xs:schema>"
+    if tns != NONE and default_ns_spelling(s):
+        # the SAME schema, spelled with the target namespace as the default namespace and unprefixed references
+        # (type="Kid", ref="g") - a schema document is XML: how it binds its prefixes does not change the schema
+        text = text.replace(f' xmlns:t="{tns}"', f' xmlns="{tns}"', 1).replace('="t:', '="')
+    return text
+
+
+def default_ns_spelling(s) -> bool:
+    return (s["form"] == "unqualified" and not s["named"]) or (s["form"] == "qualified" and s["named"] and len(s["attrs"]) == 1)
 
 
 def _parity(doc) -> int:
